@@ -147,6 +147,26 @@ def check_C02(chk):
         key = "S=%s plans=%s mode=%s procs=%s delay_us=%s" % (c["S"], c["plans"], c["mode"], c["procs"], c["delay_us"])
         chk.failing_input(why, {"input": c, "observed": {k: v for k, v in (it["rec"] or {}).items() if k in ("got", "errors", "closed", "expected")}}, key=key)
     sends = [s for it in items for s in conc_trace_items(it)]
+    # several channels observed through the public IpcReceiverSet, many messages of each pending when select looks (batches with dozens of
+    # results of 2..6 channels, the channels becoming ready in the opposite order of their ids): each channel's messages in send order
+    from . import props_set as PS
+    scases = []
+    for i in range(40 if thorough else 8):
+        m = rng.randint(2, 6)
+        scases.append({"id": 200000 + i, "plans": [([40] * rng.randint(8, 40), True) for _ in range(m)], "late": [False] * m, "mode": ["after", "before"][i % 2],
+                       "threads": 1 if i % 2 == 0 else rng.randint(1, 3), "rev": i % 3 != 2})
+    slines = ["id=%d plan=%s mode=%s threads=%d eintr=0 level=ipc%s" % (c["id"], PS.plan_str(c["plans"]), c["mode"], c["threads"], " rev=1" if c["rev"] else "") for c in scases]
+    for fl in ("default", "inprocess"):
+        srecs, _, src, serr = C.run_harness(bins[fl], "rset", slines, shim=False, timeout=300)
+        sby = {r["id"]: r for r in srecs if r.get("kind") == "rset"}
+        for c in scases:
+            why = PS.rset_oracle({"case": c, "rec": sby.get(c["id"]), "stderr": serr})
+            if why:
+                fails.append(({"case": c}, why))
+                chk.failing_input("channels observed through an IpcReceiverSet: " + why, {"build": fl, "plan": PS.plan_str(c["plans"]), "mode": c["mode"], "reversed_readiness": c["rev"],
+                                                                                          "observed_batches": (sby.get(c["id"]) or {}).get("batches", [])[:3]},
+                                  key="c02set:%s:%s:%s" % (fl, PS.plan_str(c["plans"])[:150], c["mode"]))
+        chk.coverage.setdefault("receiver_set_order_scenarios", {})[fl] = len(sby)
     ncmp, bad, errors = F.correspond(sends, "c02")
     cov = chk.coverage
     cov["evaluations"] = len(items)
